@@ -62,6 +62,20 @@ CHECKS = {
                 "'settled' reading documented in DESIGN.md. No axioms.",
         "technique": "Coq proof (invariant by induction over histories, loop covering lemma, refinement of client roster fold) + differential correspondence over wire-mode histories",
     },
+    "C15": {
+        "text": "Theorems (Props/C15.v) over a std++ gmap model of YAMLAccountManager and the four account handlers: the invariant "
+                "disk = mask <$> mem (same logins, names, hashes; privileges = the 40 named bits), keys = logins, 8-byte bitmaps is preserved by "
+                "every operation, hence for histories of ANY length (new-user, set-user, batched update-user mixing create/modify/rename/delete, "
+                "delete-user, restart): listed iff on disk, a (login,password) authenticates iff its file exists and the stored hash verifies - "
+                "before and after a restart; deleted logins cannot log in; a rename removes the old login and carries the account; the three "
+                "password cases (absent clears, single zero byte keeps, else sets); an edit touches only its account; bcrypt's 72-byte cyclic "
+                "key is modelled exactly (so '' and NUL collide in the model as in bcrypt). The pinned Update is refuted by witness. "
+                "Correspondence: generated histories through the real handlers and manager; after EVERY step: list-users reply, parsed account "
+                "files, every universe login x password tried against memory and against a manager freshly loaded from disk.",
+        "note": "Trusted: Coq kernel, std++ gmap; bcrypt abstracted to equality of 72-byte cyclic keys (no collisions otherwise), yaml.v3 round-trip observed; "
+                "logins restricted to legal file names. No axioms.",
+        "technique": "Coq proof (invariant preserved by every operation, lifted over histories) + differential correspondence after every step of generated histories",
+    },
     "C16": {
         "text": "Theorems (Props/C16.v) over tables REGENERATED from hotline/access.go on every run: for ALL 2^64 bitmaps and every bit, "
                 "load(save(b)) has bit i iff b has it and i is one of the 40 defined privileges (also as the equation load(save b) = mask b); "
